@@ -87,16 +87,70 @@ def coq_build(targets, force=(), timeout=1500):
     """make the given .vo targets (paths relative to coq/).  `force` lists .v
     files whose .vo is removed first so that their Print Assumptions output is
     produced again.  Returns (ok, log)."""
-    with Lock("coq"):
+    # Dependency-driven build with plain coqc (full .vo files) and one lock per
+    # FILE, so that checks and builders working on different files never wait
+    # for each other (a single `make` lock used to serialise everybody).
+    with Lock("coq-project"):
         coq_project()
-        for f in force:
-            for ext in (".vo", ".vok", ".vos", ".glob"):
+    args = ["-Q", "theories", "AG", "-Q", "gen", "AGgen", "-Q", "props", "AGprops"]
+    files = []
+    for d in ("theories", "gen", "props"):
+        files += sorted(os.path.relpath(p, COQ) for p in glob.glob(os.path.join(COQ, d, "*.v")))
+    rc, depout = sh(["coqdep"] + args + files, cwd=COQ, timeout=120)
+    deps = {}
+    for ln in depout.splitlines():
+        if ":" not in ln or ln.startswith("***") or ln.startswith("Warning"):
+            continue
+        lhs, rhs = ln.split(":", 1)
+        outs = [x for x in lhs.split() if x.endswith(".vo")]
+        if not outs:
+            continue
+        deps[outs[0]] = [x for x in rhs.split() if x.endswith(".vo")]
+    order, seen = [], set()
+
+    def visit(t):
+        if t in seen:
+            return
+        seen.add(t)
+        for dpd in deps.get(t, []):
+            visit(dpd)
+        order.append(t)
+
+    for t in targets:
+        visit(t)
+    log = []
+    deadline = time.time() + timeout
+    rebuilt = set()
+    force_vo = {f[:-2] + ".vo" for f in force}
+    for vo in order:
+        src = vo[:-1]
+        psrc, pvo = os.path.join(COQ, src), os.path.join(COQ, vo)
+        if not os.path.exists(psrc):
+            return False, "\n".join(log) + f"\nmissing source {src}"
+        with Lock("coq-" + vo.replace("/", "_")):
+            need = (vo in force_vo) or not os.path.exists(pvo) or os.path.getmtime(psrc) > os.path.getmtime(pvo)
+            if not need:
+                for dpd in deps.get(vo, []):
+                    pd = os.path.join(COQ, dpd)
+                    if dpd in rebuilt or (os.path.exists(pd) and os.path.getmtime(pd) > os.path.getmtime(pvo)):
+                        need = True
+                        break
+            if not need:
+                continue
+            left = max(30, int(deadline - time.time()))
+            log.append(f"COQC {src}")
+            rc, out = sh(["timeout", str(left), "coqc", "-q", "-w",
+                          "-notation-overridden,-deprecated-hint-without-locality,-deprecated-instance-without-locality"]
+                         + args + [src], cwd=COQ, timeout=left + 30)
+            log.append(out)
+            if rc != 0:
                 try:
-                    os.remove(os.path.join(COQ, f[:-2] + ext))
+                    os.remove(pvo)
                 except FileNotFoundError:
                     pass
-        rc, out = sh(["timeout", str(timeout), "make", "-j16"] + list(targets), cwd=COQ, timeout=timeout + 30)
-        return rc == 0, out
+                return False, "\n".join(log) + (f"\n(coqc exit {rc}" + (", timeout)" if rc == 124 else ")"))
+            rebuilt.add(vo)
+    return True, "\n".join(log)
 
 
 def forbidden_tokens():
@@ -268,7 +322,7 @@ def eval_cases(prop_id, shards, requires, timeout=900):
                       "-Q", os.path.join(COQ, "gen"), "AGgen", "-Q", wd, "AGcases", p], timeout=timeout + 30)
         return rc, out
 
-    with ThreadPoolExecutor(max_workers=16) as ex:
+    with ThreadPoolExecutor(max_workers=int(os.environ.get("VERIF_JOBS", "16"))) as ex:
         results = list(ex.map(run, paths))
     nums = []
     logs = []
